@@ -787,3 +787,62 @@ Proof.
                            (dpos st + dlen st + post + (0 + length (lout r)))) as [Hno|_]; [lia|].
     split; [reflexivity|]. apply Hfinal. exact Hcall.
 Qed.
+
+(* ---------- liveness for a reader that provides space ---------- *)
+(* between messages the caller makes room (gap = unread length + 16, any prefix) and calls once *)
+Definition spaced_step (v : variant) (s : hs) (pre : list byte) (frags res : list nat) : hs :=
+  let gap := repeat 0%N (length (skipn (dcurr (hs_st s)) (hs_buf s)) + 16) in
+  hstep v (hstep v s (HRebuf pre gap)) (HCall frags res).
+
+Definition idle_between (v : variant) (s : hs) : Prop :=
+  hs_stop s = false /\ cinv v [] (hs_st s) (hs_buf s) /\ dcode (hs_st s) = 0.
+
+Lemma spaced_step_delivers v s pre frags res body m tl :
+  idle_between v s -> skipn (dcurr (hs_st s)) (hs_buf s) = body ++ 0%N :: tl -> sdec v body = Some m ->
+  let s' := spaced_step v s pre frags res in
+  idle_between v s' /\ hs_msgs s' = hs_msgs s ++ [m] /\ skipn (dcurr (hs_st s')) (hs_buf s') = tl.
+Proof.
+  intros (Hstop & Hc & Hcode) Hun Hs. unfold spaced_step. cbn zeta.
+  set (gap := repeat 0%N (length (skipn (dcurr (hs_st s)) (hs_buf s)) + 16)).
+  destruct (cinv_rebuf v [] (hs_st s) (hs_buf s) pre gap Hc) as [Hc1 Hun1].
+  set (st1 := st_rebuf (hs_st s) (length pre) (length gap)) in *.
+  set (buf1 := buf_rebuf (hs_st s) (hs_buf s) pre gap) in *.
+  assert (E1 : hstep v s (HRebuf pre gap) = mkhs st1 buf1 (hs_msgs s) false)
+    by (unfold hstep; rewrite Hstop; reflexivity).
+  rewrite E1. unfold hstep. cbn [hs_stop hs_st hs_buf hs_msgs].
+  assert (Hgl : length gap = length (skipn (dcurr (hs_st s)) (hs_buf s)) + 16) by (unfold gap; apply repeat_length).
+  pose proof Hc1 as (G1 & G2 & Hm1).
+  assert (Hidle1 : dmsg st1 = Some (dlen st1) \/ (dmsg st1 = None /\ dlen st1 = 0)).
+  { unfold st1, st_rebuf. cbn [dmsg dlen]. destruct Hc as (_ & _ & Hm). destruct (dmsg (hs_st s)) as [c|].
+    - destruct Hm as (-> & _ & _). left. reflexivity.
+    - rewrite Hcode in Hm. cbn [Nat.eqb] in Hm. right. split; [reflexivity|apply Hm]. }
+  pose proof (dec_call_complete v st1 buf1 frags res body m tl G1 G2
+                ltac:(unfold st1, st_rebuf; cbn [dcode]; exact Hcode) Hidle1
+                ltac:(rewrite Hun1; exact Hun) Hs
+                ltac:(unfold st1, st_rebuf; cbn [dcurr dpos dlen]; rewrite Hgl, Hun, app_length; cbn [length]; lia)) as Hcomp.
+  pose proof (dec_call_honest v [] st1 buf1 frags res Hc1) as Hhon.
+  destruct (dec_call_res v st1 buf1 frags res false) as [[r st2] buf2].
+  destruct Hcomp as (-> & Hdec & Hmsg & Hcur & Hun2).
+  destruct Hhon as (k & body' & _ & _ & _ & _ & _ & _ & Hc2 & Hm2).
+  cbn [hs_stop hs_st hs_buf hs_msgs]. split; [|split; [rewrite Hdec; reflexivity|exact Hun2]].
+  split; [reflexivity|]. split; [exact Hc2|].
+  destruct Hc2 as (_ & _ & Hx). rewrite Hm2 in Hx. apply Hx.
+Qed.
+
+(* every complete frame at the front of the unread input is delivered, one per step *)
+Theorem spaced_reader_delivers v : forall ms W, frames_of v ms W ->
+  forall s tl (steps : list (list byte * list nat * list nat)),
+    idle_between v s -> skipn (dcurr (hs_st s)) (hs_buf s) = W ++ tl -> length steps = length ms ->
+    let s' := fold_left (fun s x => spaced_step v s (fst (fst x)) (snd (fst x)) (snd x)) steps s in
+    idle_between v s' /\ hs_msgs s' = hs_msgs s ++ ms /\ skipn (dcurr (hs_st s')) (hs_buf s') = tl.
+Proof.
+  induction 1 as [|m ms body rest Hs Hz Hf IH]; intros s tl steps Hi Hun Hl.
+  - destruct steps; [|discriminate]. cbn [fold_left]. rewrite app_nil_r. cbn [app] in Hun. auto.
+  - destruct steps as [|[[pre frags] res] steps]; [discriminate|]. cbn [fold_left fst snd].
+    destruct (spaced_step_delivers v s pre frags res body m (rest ++ tl) Hi
+                ltac:(rewrite Hun, <- !app_assoc; reflexivity) Hs) as (Hi1 & Hm1 & Hu1).
+    cbn [length] in Hl.
+    destruct (IH (spaced_step v s pre frags res) tl steps Hi1 Hu1 ltac:(lia)) as (Hi2 & Hm2 & Hu2).
+    cbn zeta in *. split; [exact Hi2|]. split; [|exact Hu2].
+    rewrite Hm2, Hm1, <- app_assoc. reflexivity.
+Qed.
